@@ -9,6 +9,7 @@ TLC against the specification (Trace_Dyn.tla).
 """
 from __future__ import annotations
 
+import json
 import os
 import random
 import sys
@@ -43,6 +44,11 @@ def _sm():
 NUMREP = 0   # representation of numeric parameters handed to the constructors (set per case by Built)
 
 
+def _set_numrep(case, arrays):
+    global NUMREP
+    NUMREP = zlib.crc32(f"{case.get('id')}|numrep".encode()) % (4 if arrays else 3)
+
+
 def _n(s):
     """a numeric parameter as users write it: an int where integral (0), always a float (1), a NumPy scalar (2),
     a 0-d array (3, only for networks stepped with the NumPy engine, whose "symbols" are arrays)"""
@@ -64,11 +70,10 @@ class Built:
     """a network built from a case, with the maps abstract id <-> real object"""
 
     def __init__(self, case: dict, syms: dict | None = None, arrays: bool = False):
-        global NUMREP
         sm = _sm()
         nj = case["net"]
         names = case.get("names") or {}
-        NUMREP = zlib.crc32(f"{case.get('id')}|numrep".encode()) % (4 if arrays else 3)
+        _set_numrep(case, arrays)
         self.bufs = []   # (buffer, pristine copy) behind strided views handed to the library
         syms = syms or {}  # (kind, el) -> symbol replacing a numeric parameter
         nm = lambda i: names.get(i, i)  # noqa: E731
@@ -174,8 +179,9 @@ class Built:
             return a
         ic = {}
         nj = self.case["net"]
+        flip = zlib.crc32(f"{self.case.get('id')}|keyorder".encode()) % 2 == 1   # the caller's spelling of its dictionaries
         for l, ob in self.links.items():
-            e = {"rho": arr(x["rho"][l]), "v": arr(x["v"][l])}
+            e = {"v": arr(x["v"][l]), "rho": arr(x["rho"][l])} if flip else {"rho": arr(x["rho"][l]), "v": arr(x["v"][l])}
             if col and mode == 0 and len(x["rho"][l]) == 1 and not nj["links"][l]["ctl"]:
                 e = {k_: a_.reshape(1, 1) for k_, a_ in e.items()}
             if nj["links"][l]["ctl"]:
@@ -185,7 +191,8 @@ class Built:
             kind = nj["origins"][o]["kind"]
             if kind == "ideal":
                 continue
-            ic[ob] = {"w": arr([x["w"][o]]), "d": arr([d["o"][o]]), UNAME[kind]: arr([u["o"][o]])}
+            ic[ob] = ({UNAME[kind]: arr([u["o"][o]]), "d": arr([d["o"][o]]), "w": arr([x["w"][o]])} if flip else
+                      {"w": arr([x["w"][o]]), "d": arr([d["o"][o]]), UNAME[kind]: arr([u["o"][o]])})
         for k, ob in self.dests.items():
             if nj["dests"][k]["kind"] == "congested":
                 ic[ob] = {"d": arr([d["dest"][k]])}
@@ -349,7 +356,8 @@ def observe(case: dict) -> dict:
     # ---- NumPy with caller-supplied arrays
     if want.get("np", True):
         o = {"has": True, "ok": False, "err": "", "y": {"rho": {}, "v": {}, "w": {}}, "shapes": True,
-             "flows": {"has": False, "q": {}, "qo": {}, "err": ""}}
+             "flows": {"has": False, "q": {}, "qo": {}, "err": ""},
+             "feedback": {"has": False, "ya": {"rho": {}, "v": {}, "w": {}}, "yb": {"rho": {}, "v": {}, "w": {}}, "err": ""}}
         o["pure"] = {"has": False}
         try:
             # C12 (pure): the caller's arrays in three representations, chosen per case
@@ -359,7 +367,29 @@ def observe(case: dict) -> dict:
             ic = b.np_init(x, u, d, amode, ints, col)
             # the history before the step is not part of its meaning: the next state is read after a plain step, or after
             # one of three detours on the same network object (chosen per case)
-            via = zlib.crc32(f"{case.get('id')}|via".encode()) % 7
+            via = zlib.crc32(f"{case.get('id')}|via".encode()) % 8
+            if via == 7 and not want.get("sens"):
+                # (d) the network was built with OTHER link parameters and origin capacities and stepped; the caller then
+                # assigns the case's values to the elements' public attributes (time-varying split rates, ...) and steps
+                oc = json.loads(json.dumps(case))
+                for k_ in oc["net"]["links"].values():
+                    for a_, f_ in (("beta", 1.7), ("rho_crit", 0.9), ("v_free", 1.1), ("a", 1.2), ("rho_max", 1.05), ("L", 1.3)):
+                        k_[a_] = fr(num(k_[a_]) * f_ + (0.25 if a_ == "beta" else 0.0))
+                for k_ in oc["net"]["origins"].values():
+                    k_["C"] = fr(num(k_["C"]) * 0.7 + 10.0)
+                b = Built(oc, arrays=True)
+                b.case = case
+                b.net.step(init_conditions=b.np_init(x, u, d), engine=np_engine(), **okw, **kw)
+                _set_numrep(case, True)
+                for l_, ob in b.links.items():
+                    for a_, attr in LINK_PARAM_ATTR.items():
+                        if a_ != "lam":
+                            setattr(ob, attr, _n(case["net"]["links"][l_][a_]))
+                for o_, ob in b.origins.items():
+                    if hasattr(ob, "C"):
+                        ob.C = _n(case["net"]["origins"][o_]["C"])
+                ic = b.np_init(x, u, d, amode, ints, col)
+                o["via"] = "attributes-reassigned"
             eng = np_engine()
             x0 = {"rho": {l: [0.83 * z + 1.9 for z in s_] for l, s_ in x["rho"].items()},
                   "v": {l: [1.07 * z + 2.3 for z in s_] for l, s_ in x["v"].items()},
@@ -460,6 +490,33 @@ def observe(case: dict) -> dict:
             o["err"] = errstr(e)
             o["ok"] = False
         obs["np"] = o
+    # ---- the caller feeds the very next-state OBJECTS back as initial conditions, after disturbing them in place
+    if want.get("feedback", False) and obs["np"].get("ok"):
+        fbk = {"has": False, "ya": {"rho": {}, "v": {}, "w": {}}, "yb": {"rho": {}, "v": {}, "w": {}}, "err": ""}
+        try:
+            b4, eng4 = Built(case, arrays=True), np_engine()
+            ic4 = b4.np_init(x, u, d)
+            b4.net.step(init_conditions=ic4, engine=eng4, **okw, **kw)
+            ic5 = {}
+            for el_, dd in ic4.items():
+                e5 = dict(dd)
+                for k_, a_ in (getattr(el_, "next_states", None) or {}).items():
+                    if isinstance(a_, np.ndarray) and a_.ndim >= 1 and a_.flags.writeable and a_.dtype.kind == "f":
+                        sign = np.where(np.arange(a_.size).reshape(a_.shape) % 2 == 0, 1.0, -0.2)
+                        a_ -= sign * (0.8 * np.abs(a_) + 5.0)      # noise: some entries become negative
+                    e5[k_] = a_
+                ic5[el_] = e5
+            vals5 = {b4.idof[el_]: {k_: np.array(v_, float).copy() for k_, v_ in dd.items()} for el_, dd in ic5.items()}
+            b4.net.step(init_conditions=ic5, engine=eng4, **okw, **kw)
+            fbk["ya"], _ = b4.read_next()
+            b5 = Built(case, arrays=True)
+            ob5 = lambda i_: b5.links.get(i_) or b5.origins.get(i_) or b5.dests.get(i_)  # noqa: E731
+            b5.net.step(init_conditions={ob5(i_): dd for i_, dd in vals5.items()}, engine=np_engine(), **okw, **kw)
+            fbk["yb"], _ = b5.read_next()
+            fbk["has"] = True
+        except BaseException as e:  # noqa: BLE001
+            fbk["err"] = errstr(e)
+        obs["np"]["feedback"] = fbk
     # ---- the same step without options on inputs clamped at zero by hand (metamorphic partner of C11)
     if want.get("np_plain", False):
         o = {"has": True, "ok": False, "err": "", "y": {"rho": {}, "v": {}, "w": {}}}
@@ -574,11 +631,17 @@ def run_fn(case, spec, x, u, d, rng):
         if rec["pre"] != "none":
             # the caller supplies the initial STATES as expressions g(s) of symbols s it created itself; the function's
             # state arguments are then those symbols, and the step is the step from g(values)
-            g = {"fmaxm20": lambda s_: cs.fmax(-20, s_), "affine": lambda s_: 2 * s_ - 3}[rec["pre"]]
+            g = {"fmaxm20": lambda s_: cs.fmax(-20, s_), "affine": lambda s_: 2 * s_ - 3, "ident": lambda s_: s_}[rec["pre"]]
             ic = {}
+            flip = rec["pre"] == "ident" or zlib.crc32(f"{case.get('id')}|{sym}{compact}|flip".encode()) % 2 == 1
+            if rec["pre"] == "ident":
+                # the caller's own symbols ARE the states; an ordinary step was made before on the same network
+                lib(b.net.step, engine=eng, **opt_kwargs(case), **kw)
             for l_, ob in b.links.items():
                 n_ = int(case["net"]["links"][l_]["N"])
                 ic[ob] = {"rho": g(eng.sym_type.sym(f"rho_{ob.name}_c", n_, 1)), "v": g(eng.sym_type.sym(f"v_{ob.name}_c", n_, 1))}
+                if flip:
+                    ic[ob] = dict(reversed(list(ic[ob].items())))
             for o_, ob in b.origins.items():
                 if case["net"]["origins"][o_]["kind"] != "ideal":
                     ic[ob] = {"w": g(eng.sym_type.sym(f"w_{ob.name}_c", 1, 1))}
